@@ -41,7 +41,8 @@ def fn_src(ctx, name, gen, kinds, extra, indent="", service_first=False):
     if "mqtt" in kinds:
         L.append(f"{indent}@mqtt_trigger({MQTT_TOPIC!r})")
     if "webhook" in kinds:
-        L.append(f"{indent}@webhook_trigger('hook_{ctx.split('.')[1]}_{name}')")
+        # one webhook id per context: f1 and f2 share it (Home Assistant allows one handler per id)
+        L.append(f"{indent}@webhook_trigger('hook_{ctx.split('.')[1]}')")
     if "service" in kinds and not service_first:
         L.append(svc)
     if "shared" in kinds:
@@ -490,7 +491,7 @@ async def _execute(case, files, subs, hooks):
             n_mqtt = sum(1 for x in live if "mqtt" in x[3])
             # the legacy subsystem shares one subscription per topic, the new one subscribes per decorator
             mqtt_exp = min(n_mqtt, 1) if case["legacy"] else n_mqtt
-            hooks_exp = sorted(f"hook_{c.split('.')[1]}_{n}" for (c, n, g_, kinds, extra) in live if "webhook" in kinds)
+            hooks_exp = sorted({f"hook_{c.split('.')[1]}" for (c, n, g_, kinds, extra) in live if "webhook" in kinds})
             res_exp = {"q_e1": n_state, "q_e2": n_state, "event": n_event, "services": svc_exp, "mqtt": mqtt_exp, "hooks": hooks_exp}
             res_obs = {"q_e1": q_e1, "q_e2": q_e2, "event": (ev_q if case["legacy"] else bus), "services": svc_obs, "mqtt": len(subs), "hooks": sorted(hooks)}
             if case["legacy"] and (bus > 1 or (bus == 0) != (ev_q == 0)):
